@@ -136,18 +136,19 @@ def run(eng, rep, tier):
                   "%s contains the documented spellings %s" % (tab, sorted(need)),
                   "%s = %r lacks a documented spelling (%s)" % (tab, tables[tab], sorted(need - set(tables[tab]))), None,
                   site=site_of(prog, tn, tn.node))
-    branch = {}
-    for sub in ast.walk(tn.node):
-        if isinstance(sub, ast.If) and isinstance(sub.test, ast.Compare) and len(sub.test.ops) == 1 and \
-                isinstance(sub.test.ops[0], ast.In) and isinstance(sub.test.comparators[0], ast.Name):
-            for st in sub.body:
-                if isinstance(st, ast.Assign) and isinstance(st.value, ast.Call) and isinstance(st.value.func, ast.Name):
-                    branch[sub.test.comparators[0].id] = st.value.func.id
+    # the reader's classification, decided by running to_node abstractly on every token of every table
+    from ..av import AV as _AV
     for tab, cls in (("CONCATENATION_SYMBOLS", "Concatenation"), ("UNION_SYMBOLS", "Union"),
                      ("KLEENE_STAR_SYMBOLS", "KleeneStar"), ("EPSILON_SYMBOLS", "Epsilon")):
-        ob.decide("R7", "C05.2", tn, "reader-branch:" + tab, branch.get(tab) == cls,
-                  "tokens of %s are read as %s" % (tab, cls),
-                  "to_node reads the tokens of %s as %s (expected %s)" % (tab, branch.get(tab), cls), None,
+        want_q = RO + "." + cls
+        got = {}
+        for tok in tables[tab]:
+            stn = interp.run_entry(tn, None, args=[_AV(types=frozenset({"str"}), const=tok)])
+            got[tok] = stn.ret
+        bad = {tok: r.short()[:60] for tok, r in got.items() if not r.only(want_q)}
+        ob.decide("R7", "C05.2", tn, "reader-branch:" + tab, bool(got) and not bad,
+                  "every token of %s is read as %s" % (tab, cls),
+                  "to_node reads %s (expected %s for the tokens of %s)" % (bad, cls, tab), None,
                   site=site_of(prog, tn, tn.node))
     ops = [q for q in prog.subclasses(RO + ".Operator", strict=True)]
     disp = prog.method("Regex", "_process_to_enfa_when_sons")
